@@ -329,5 +329,41 @@ func emitParsers(e *emitter, p *pkg) {
 			}
 		}
 		e.boolean("fragReadsGuard", frag)
+
+		// readRecordOrCCS: once the call has delivered handshake data it returns instead of
+		// reading another datagram: `if len(c.rawInputBuf) < recordHeaderLen { if delivered {…return nil} …readDatagram`
+		// and `delivered = true` directly after `c.handBuf.Write(data)`, and the warning-alert case
+		// returns instead of retrying when delivered
+		top, set, alert := false, false, false
+		if fd := p.funcs["Conn.readRecordOrCCS"]; fd != nil && fd.Body != nil {
+			ast.Inspect(fd.Body, func(n ast.Node) bool {
+				switch t := n.(type) {
+				case *ast.IfStmt:
+					if p.src(t.Cond) == "len(c.rawInputBuf) < recordHeaderLen" && len(t.Body.List) >= 2 {
+						if is, ok := t.Body.List[0].(*ast.IfStmt); ok && p.src(is.Cond) == "delivered" && parEndsInReturn(is.Body) &&
+							strings.Contains(p.src(t.Body.List[1]), "c.readDatagram()") {
+							top = true
+						}
+					}
+				case *ast.CaseClause:
+					for i, st := range t.Body {
+						if es, ok := st.(*ast.ExprStmt); ok && p.src(es.X) == "c.handBuf.Write(data)" && i+1 < len(t.Body) {
+							if p.src(t.Body[i+1]) == "delivered = true" {
+								set = true
+							}
+						}
+						// case alertLevelWarning: … `if delivered { return nil }` before the retry
+						if len(t.List) == 1 && p.src(t.List[0]) == "alertLevelWarning" {
+							if is, ok := st.(*ast.IfStmt); ok && p.src(is.Cond) == "delivered" && parEndsInReturn(is.Body) && i+1 < len(t.Body) &&
+								strings.Contains(p.src(t.Body[i+1]), "c.retryReadRecord(") {
+								alert = true
+							}
+						}
+					}
+				}
+				return true
+			})
+		}
+		e.boolean("recDeliveredGuard", top && set && alert)
 	}
 }
